@@ -72,6 +72,31 @@ def strategy(draw):
                 meta_kind=draw(st.sampled_from(["none", "files", "nested"])))
 
 
+BIG = {"quick": 8, "thorough": 96}
+
+
+@st.composite
+def strategy_big(draw):
+    """Long recordings: 1-2 records of 2^14 .. 2^18 samples (one time step), up to 5 centre frequencies."""
+    case = draw(strategy())
+    spec = case["spec"]
+    n = draw(gen.big_size(2 ** 14, 2 ** 18))
+    recs = case["records"][:draw(st.sampled_from([1, 2]))]
+    dt0 = recs[0]["dt"]
+    for r in recs:
+        r["n"], r["dt"] = n, dt0
+    spec["fft_n"] = draw(st.sampled_from([None, None, 2 ** 15, "record-length"]))
+    nfft = n if spec["fft_n"] == "record-length" else max(oracle.nextpow2(n), spec["fft_n"] or 0)
+    spec["_nfft"] = nfft
+    fcs = draw(gen.center_frequencies(spec["op"], spec["bw"], 1.0 / (nfft * dt0), 0.5 / dt0, max_size=5))
+    if fcs is None:
+        spec["op"], spec["bw"] = "konno_and_ohmachi", 40.0
+        fcs = draw(gen.center_frequencies(spec["op"], spec["bw"], 1.0 / (nfft * dt0), 0.5 / dt0, max_size=5))
+    spec["fcs"] = fcs
+    case.update(records=recs, spec=spec, history=case["history"][:2], big=True)
+    return case
+
+
 def warmup():
     from . import c02
     c02.warmup()
@@ -135,7 +160,7 @@ def check_case(case):
     spec = case["spec"]
     m = spec["method"]
     recs = [gen.build_recording(hv, r, meta=_meta(case["meta_kind"], i)) for i, r in enumerate(case["records"])]
-    labels = [gen.family(m), f"fft={spec['fft_n']}"]
+    labels = [gen.family(m), f"fft={spec['fft_n']}"] + (["big-2^%d-samples" % int(np.log2(case["records"][0]["n"]))] if case.get("big") else [])
     if spec["width"] > 0:
         labels.append("taper-visible")
     before = [snap(r) for r in recs]
